@@ -173,4 +173,53 @@ theorem unfixed_modify_counterexample :
     modifyUnfixedAdd [] "a/b".toList (some "10".toList) = ["a/b:1".toList, "a/b".toList] ∧
     modify [] (.add "a/b".toList (some "10".toList)) = some ["a/b:10".toList] := by decide
 
+/-- **transient flush failures never cost an entry** (one long-lived `WorldFile`, any sequence of `update_worldset`
+calls, any subset of their flushes failing): the in-memory set is always exactly what *all* requests so far
+describe — a failed flush changes neither the file nor what the set remembers —, and as soon as one more
+update succeeds, a fresh parse of the file is exactly that set: every entry nobody removed is still there,
+including the ones whose re-add met the failure. -/
+theorem failed_flush_never_loses_entries (layout : World → List (List Line)) (hl : LayoutOk layout) (path : Name)
+    (reqs : List (Req × Bool)) (w : World) (fs : Fs) (hw : MemOk w) (hr : ∀ p ∈ reqs, ReqOk p.1) :
+    let res := updateAllF layout path w fs reqs
+    MemOk res.1 ∧ (∀ e, e ∈ res.1 ↔ specApplyAll (· ∈ w) (reqs.map (·.1)) e) ∧
+    ∀ (r : Req), ReqOk r → modify res.1 r ≠ none →
+      let fin := updateWorldsetF layout path res.1 r false
+      Synced fin.1 (run fin.2 res.2) path ∧
+      ∀ e, e ∈ fin.1 ↔ specApplyAll (· ∈ w) (reqs.map (·.1) ++ [r]) e := by
+  induction reqs generalizing w fs with
+  | nil =>
+    simp only [updateAllF, List.map_nil, List.nil_append]
+    refine ⟨hw, fun _ => Iff.rfl, fun r hrk hne => ?_⟩
+    have hs := updateF_step layout path w r false hw (by cases r <;> exact hrk)
+    refine ⟨?_, fun e => by simpa [specApplyAll] using hs.2 e⟩
+    simp only [updateAllF, updateWorldsetF]
+    cases hmod : modify w r with
+    | none => exact absurd hmod hne
+    | some w' =>
+      have : (updateWorldsetF layout path w r false).1 = w' := by simp [updateWorldsetF, hmod]
+      exact flush_resyncs layout hl path w' fs (this ▸ hs.1)
+  | cons p rs ih =>
+    obtain ⟨r0, f0⟩ := p
+    have hs := updateF_step layout path w r0 f0 hw (by have := hr (r0, f0) List.mem_cons_self; cases r0 <;> exact this)
+    have h := ih (updateWorldsetF layout path w r0 f0).1 (run (updateWorldsetF layout path w r0 f0).2 fs) hs.1
+      (fun q hq => hr q (List.mem_cons_of_mem _ hq))
+    have heq : (fun e => e ∈ (updateWorldsetF layout path w r0 f0).1) = specApply (· ∈ w) r0 := by
+      funext e; exact propext (hs.2 e)
+    simp only [updateAllF, List.map_cons, List.cons_append, specApplyAll]
+    rw [← heq]
+    exact h
+
+/-- … and the failing flush itself leaves the file exactly as it was -/
+theorem failed_flush_keeps_file (layout : World → List (List Line)) (path : Name) (w : World) (r : Req) (fs : Fs) :
+    run (updateWorldsetF layout path w r true).2 fs path = fs path := by
+  unfold updateWorldsetF
+  cases modify w r with
+  | none => rfl
+  | some w' => exact run_discardOps_path path _ fs
+
+example : (updateAllF (fun w => [w]) "world".toList ["x/y".toList, "a/b".toList]
+      (fun p => if p = "world".toList then some ["x/y".toList, "a/b".toList] else none)
+      [(.add "x/y".toList none, true), (.add "c/d".toList (some "1.2".toList), false)]).2 "world".toList
+    = some ["x/y".toList, "a/b".toList, "c/d:1.2".toList] := by decide
+
 end Pkgcore.C30
